@@ -447,6 +447,10 @@ def run(ctx):
     # shared clauses
     from . import c03
     c03.rule_cond(ctx, rep)     # digits, dots and parentheses that do not form an interrupting list marker stay prose
+    # prose that merely starts like a link reference definition ("[note]: see appendix B") stays prose: the definition
+    # reader on the table of the definition grammar (shared with C07)
+    from . import c07
+    c07.rule_def_rows(ctx, rep)
     # "... is rendered as exactly that text, HTML-escaped": the text escaper establishes its postcondition for every
     # character, an ampersand in front of something that looks like a reference included (shared with C08)
     from . import c08
